@@ -82,6 +82,23 @@ def run_alloc(rp, ncores, ngpus, ops):
     return {'answers': answers, 'cores': list(w._resources['cores']), 'gpus': list(w._resources['gpus'])}, tasks
 
 
+def alloc_monitor(o, r):
+    """no index in two live requests; all returned at the end"""
+    bad, held = [], {}
+    for op, a in zip(o, r['answers']):
+        if op[0] == 'alloc' and isinstance(a, dict):
+            for kind in ('cores', 'gpus'):
+                for idx in a[kind]:
+                    if (kind, idx) in [x for v in held.values() for x in v]:
+                        bad.append(('allocator:%s-given-to-two-requests' % kind[:-1], '%s %d' % (kind, idx)))
+            held[op[1]] = [(k, i_) for k in ('cores', 'gpus') for i_ in a[k]]
+        elif op[0] == 'dealloc' and a == 'ok':
+            held.pop(op[1], None)
+    if not held and (any(r['cores']) or any(r['gpus'])):
+        bad.append(('allocator:resources-not-returned', str(r)))
+    return bad
+
+
 def gen_alloc_ops(rng):
     nc, ng = rng.choice([1, 2, 4, 8]), rng.choice([0, 0, 1, 2])
     ops, live, nid = [], [], 0
@@ -719,19 +736,8 @@ def run(ctx):
         r, live = run_alloc(rp, nc, ng, o)
         ops.append({'op': 'alloc_seq', 'ncores': nc, 'ngpus': ng, 'ops': o}); impl.append(r)
         ctx.case(ops[-1], nontrivial=any(isinstance(a, dict) for a in r['answers']))
-        # monitor: no index in two live requests; all returned at the end
-        held = {}
-        for op, a in zip(o, r['answers']):
-            if op[0] == 'alloc' and isinstance(a, dict):
-                for kind in ('cores', 'gpus'):
-                    for idx in a[kind]:
-                        if (kind, idx) in held.values() or (kind, idx) in [x for v in held.values() for x in v]:
-                            ctx.fail('allocator:%s-given-to-two-requests' % kind[:-1], '%s %d' % (kind, idx), {'kind': 'alloc', 'op': ops[-1]})
-                held[op[1]] = [(k, i_) for k in ('cores', 'gpus') for i_ in a[k]]
-            elif op[0] == 'dealloc' and a == 'ok':
-                held.pop(op[1], None)
-        if not held and (any(r['cores']) or any(r['gpus'])):
-            ctx.fail('allocator:resources-not-returned', str(r), {'kind': 'alloc', 'op': ops[-1]})
+        for sig, what in alloc_monitor(o, r):
+            ctx.fail(sig, what, {'kind': 'alloc', 'op': ops[-1]})
     common.compare(ctx, 'raptor', ops, impl, what='real DefaultWorker._alloc/_dealloc over request streams')
     # (B) exhaustive
     rops, rimpl = [], []
@@ -921,5 +927,7 @@ def replay(ctx, data):
     if i['kind'] == 'fwd':
         r = run_fwd(rp, i['ops']); bad = fwd_monitor(i['ops'], r, i['n']); print(r, bad); return not bad
     if i['kind'] == 'alloc':
-        r, live = run_alloc(rp, i['op']['ncores'], i['op']['ngpus'], i['op']['ops']); print(r); return False
+        r, live = run_alloc(rp, i['op']['ncores'], i['op']['ngpus'], i['op']['ops'])
+        bad = alloc_monitor(i['op']['ops'], r); print(r); print(bad)
+        return not bad
     return False
